@@ -15,14 +15,19 @@ Quantifier (property text): handler x message index of the exchange x fault kind
    garbage    - raw garbage bytes on the wire / a well-framed reply with a garbage payload
    missing    - the reply arrives with one required field removed (each field in turn, also the
                 fields inside the encrypted part of M6 / verify-M2)
-   tamper     - one required field has its bytes changed (still well-formed)
+   malformed  - one item is present but EMPTY (zero length) or of the WRONG LENGTH (one byte short,
+                one byte long, half) - every item of every step, also inside the encrypted part
+   tamper     - one item has a bit changed (right length, still well-formed): authenticity, C06
    disconnect - the device closes the connection instead of replying (clean EOF and reset)
    refused    - the connection cannot be opened at all
 plus the fault-free run, API misuse (finish() without pin / without begin()), cancellation of
 begin()/finish() while it waits for each reply AND after k turns of the event loop for every k until
 the call completes; each with credentials stored before (service and settings, different values) and
 as first-time pairing (nothing stored).  DMAP: handle_request with fake requests for PINs
-0, 1, 7, 1234, 9999, None x {correct code, other PINs' codes, other guid, garbage, missing}.
+0, 1, 7, 1234, 9999, None x {correct code, other PINs' codes, other guid, garbage, missing}; requests
+with the right code but missing / empty / extra query fields; user-supplied pairing guids (top bit
+set, short, wider than 64 bits, not hex, empty) - each followed by finish().  A request the remote
+got no pairing answer to (status != 200) must leave has_paired False and nothing written.
 
 Several attempts on ONE handler object (success then a failing attempt at each reply, failure then a
 complete attempt, success twice, ...): every attempt is judged relative to what was stored when it
@@ -228,6 +233,10 @@ def tlv_tampered(tlv, field, how):
         v = v[: len(v) // 2]
     elif how == "empty":
         v = b""
+    elif how == "short":
+        v = v[:-1]
+    elif how == "long":
+        v = v + b"\x00"
     d[field] = v
     return write_tlv(d)
 
@@ -270,15 +279,15 @@ def mutate_tlv(tlv, plan, reencrypt=None):
         return error_tlv(seq_of(tlv), int(sub))
     if plan.kind == "garbage":       # sub == 'payload'
         return plan.garbage
-    if plan.kind in ("missing", "tamper"):
+    if plan.kind in ("missing", "tamper", "malformed"):
         sub = plan.sub or ""
         how = "flip"
-        if plan.kind == "tamper" and "/" in sub:
+        if plan.kind != "missing" and "/" in sub:
             sub, how = sub.split("/")
         if sub.startswith("inner:"):
             if reencrypt is None or sub[6:] not in FIELD:
                 return None
-            return reencrypt(FIELD[sub[6:]], how if plan.kind == "tamper" else None)
+            return reencrypt(FIELD[sub[6:]], how if plan.kind != "missing" else None)
         if sub not in FIELD:
             return None
         if plan.kind == "missing":
@@ -642,7 +651,7 @@ def make_airplay_device(plan, legacy):
                     return honest._replace(code=470, message="Connection Authorization Required", body=b"")
                 if plan.kind == "garbage":
                     return honest._replace(body=plan.garbage, headers=dict(honest.headers, **{"Content-Type": "application/x-apple-binary-plist"}))
-                if plan.kind in ("missing", "tamper") and body:
+                if plan.kind in ("missing", "tamper", "malformed") and body:
                     try:
                         d = plistlib.loads(body)
                     except Exception:  # noqa
@@ -656,7 +665,7 @@ def make_airplay_device(plan, legacy):
                         del d[sub]
                     else:
                         v = d[sub]
-                        d[sub] = {"flip": v[:-1] + bytes([v[-1] ^ 1]), "truncate": v[: len(v) // 2], "empty": b""}[how]
+                        d[sub] = {"flip": v[:-1] + bytes([v[-1] ^ 1]), "truncate": v[: len(v) // 2], "empty": b"", "short": v[:-1], "long": v + b"\x00"}[how]
                     return honest._replace(body=plistlib.dumps(d, fmt=plistlib.FMT_BINARY))
                 return None
 
@@ -894,9 +903,23 @@ def exchange_failed(spec, obs):
         return False
     if kind in TRANSPORT_KINDS or (kind == "garbage" and spec.get("sub") == "wire") or (kind == "error" and str(spec.get("sub", "")).startswith("http")):
         return True
-    if kind in ("error", "garbage", "missing"):
+    if kind in ("error", "garbage", "missing", "malformed"):
         return obs.get("hit_name") in EXCHANGE_REPLIES[spec["handler"]]
     return False
+
+
+NEVER_READ = ("Proof", "inner:Signature", "proof", "epk", "authTag")
+
+
+def malformed_class(sub):
+    """Key part for an accepted malformed item.  Items no handler ever reads (the device's SRP proof,
+    the signature inside M6, the legacy step-2/3 answers) give one key per item; for items that ARE
+    read, 'empty' and 'wrong length' are different checks and get different keys."""
+    item, how = str(sub).split("/")
+    name = item.replace("inner:", "inner-")
+    if item in NEVER_READ:
+        return name
+    return name + ("-empty" if how == "empty" else "-length")
 
 
 def judge(spec, obs):
@@ -936,6 +959,8 @@ def judge(spec, obs):
     if success:
         if exchange_failed(spec, obs):
             suffix = ":%s:%s" % (obs.get("hit_name") or spec.get("misuse") or "pin", spec.get("kind") or "misuse")
+            if spec.get("kind") == "malformed":
+                suffix += ":" + malformed_class(spec.get("sub"))
             if wrote or after["has_paired"]:
                 out.append(("C08:%s:credentials-written-on-failure%s" % (hk, suffix),
                             "%s: the exchange failed but finish() returned normally; credentials %s -> %s, has_paired=%s" % (where, before, after, after["has_paired"])))
@@ -1001,21 +1026,35 @@ def run_spec(spec):
 
 # ------------------------------------------------------------------------------------ fault matrix
 
+def _malformed(items):
+    """'present but empty' and 'present but wrong length' for every item of a reply.  Identifier
+    has no fixed length, so only its empty form is malformed; EncryptedData likewise (a shorter one
+    is a tampered one)."""
+    out = []
+    for it in items:
+        out.append(("malformed", it + "/empty"))
+        if it.split(":")[-1] not in ("Identifier", "EncryptedData"):
+            out += [("malformed", it + "/short"), ("malformed", it + "/long"), ("malformed", it + "/truncate")]
+    return out
+
+
 CONTENT_FAULTS = {
     # reply name -> [(kind, sub)] beyond the faults applied to every reply
-    "ps-m2": [("missing", "Salt"), ("missing", "PublicKey"), ("tamper", "Salt/flip"), ("tamper", "Salt/empty"), ("tamper", "PublicKey/flip"),
-              ("tamper", "PublicKey/truncate"), ("tamper", "PublicKey/empty")],
-    "ps-m4": [("missing", "Proof"), ("tamper", "Proof/flip"), ("tamper", "Proof/empty")],
+    #   missing   = item absent;  malformed = item present but empty / of the wrong length;
+    #   tamper    = item well-formed (right length) but with a changed bit (authenticity, C06)
+    "ps-m2": [("missing", "Salt"), ("missing", "PublicKey"), ("tamper", "Salt/flip"), ("tamper", "PublicKey/flip")] + _malformed(["Salt", "PublicKey"]),
+    "ps-m4": [("missing", "Proof"), ("tamper", "Proof/flip")] + _malformed(["Proof"]),
     "ps-m6": [("missing", "EncryptedData"), ("missing", "inner:Identifier"), ("missing", "inner:Signature"), ("missing", "inner:PublicKey"),
-              ("tamper", "EncryptedData/flip"), ("tamper", "EncryptedData/truncate"), ("tamper", "EncryptedData/empty"),
-              ("tamper", "inner:Signature/flip"), ("tamper", "inner:PublicKey/flip"), ("tamper", "inner:Identifier/flip")],
+              ("tamper", "EncryptedData/flip"), ("tamper", "EncryptedData/truncate"),
+              ("tamper", "inner:Signature/flip"), ("tamper", "inner:PublicKey/flip"), ("tamper", "inner:Identifier/flip")]
+             + _malformed(["EncryptedData", "inner:Identifier", "inner:PublicKey", "inner:Signature"]),
     "pv-m2": [("missing", "PublicKey"), ("missing", "EncryptedData"), ("missing", "inner:Identifier"), ("missing", "inner:Signature"),
-              ("tamper", "PublicKey/flip"), ("tamper", "PublicKey/truncate"), ("tamper", "EncryptedData/flip"), ("tamper", "EncryptedData/empty"),
-              ("tamper", "inner:Identifier/flip"), ("tamper", "inner:Signature/flip")],
+              ("tamper", "PublicKey/flip"), ("tamper", "EncryptedData/flip"), ("tamper", "inner:Identifier/flip"), ("tamper", "inner:Signature/flip")]
+             + _malformed(["PublicKey", "EncryptedData", "inner:Identifier", "inner:Signature"]),
     "pv-m4": [],
-    "legacy-step1": [("missing", "pk"), ("missing", "salt"), ("missing", "not-a-dict"), ("tamper", "pk/flip"), ("tamper", "pk/empty"), ("tamper", "salt/flip")],
-    "legacy-step2": [("missing", "proof"), ("missing", "not-a-dict"), ("tamper", "proof/flip")],
-    "legacy-step3": [("missing", "epk"), ("missing", "authTag"), ("missing", "not-a-dict"), ("tamper", "epk/flip")],
+    "legacy-step1": [("missing", "pk"), ("missing", "salt"), ("missing", "not-a-dict"), ("tamper", "pk/flip"), ("tamper", "salt/flip")] + _malformed(["pk", "salt"]),
+    "legacy-step2": [("missing", "proof"), ("missing", "not-a-dict"), ("tamper", "proof/flip")] + _malformed(["proof"]),
+    "legacy-step3": [("missing", "epk"), ("missing", "authTag"), ("missing", "not-a-dict"), ("tamper", "epk/flip")] + _malformed(["epk", "authTag"]),
     "pin-start": [],
     "device-info": [],
 }
@@ -1166,6 +1205,14 @@ async def scenario_dmap(spec):
     elif code == "otherguid":
         query["pairingcode"] = dmap_code("FEDCBA9876543210", pin if pin is not None else 0)
 
+    qv = spec.get("query")
+    if qv == "no-servicename":
+        del query["servicename"]
+    elif qv == "empty-servicename":
+        query["servicename"] = ""
+    elif qv == "extra":
+        query.update({"foo": "bar", "pairingcode2": "x", "servicename2": ""})
+
     class Url:
         pass
 
@@ -1202,9 +1249,24 @@ def judge_dmap(spec, obs):
     pin = spec.get("pin")
     code = spec["code"]
     should_accept = (pin is None and code != "missing") or code in ("correct", "upper")
+    guid_hex = obs["expected_credentials"][2:]
+    guid_ok = 0 < len(guid_hex) <= 16 and all(c in "0123456789ABCDEF" for c in guid_hex)
+    # can the request be answered at all?  (a request without 'servicename' MAY be answered - the field
+    # is only logged -, so that case is judged by what the remote actually received)
+    unanswerable = not guid_ok
+    by_outcome = spec.get("query") in ("no-servicename", "empty-servicename")
     before, after = obs["before"], obs["after"]
     wrote = after["service"] != before["service"] or after["settings"] != before["settings"]
-    desc = "configured PIN %r, request code %s" % (pin, code)
+    desc = "configured PIN %r, pairing guid %s, request code %s%s" % (pin, obs["expected_credentials"], code, (" query " + spec["query"]) if spec.get("query") else "")
+    if should_accept and (unanswerable or (by_outcome and obs["status"] != 200)):
+        # the code was right but the remote did not get the pairing answer: the exchange failed
+        if obs["status"] == 200:
+            out.append(("C08:dmap:success-not-recorded", "%s: answered 200 although the pairing guid does not fit the cmpg field" % desc))
+        if obs["after_request"]["has_paired"] or after["has_paired"]:
+            out.append(("C08:dmap:has-paired-on-failure", "%s: the request was not answered (status=%s) but has_paired is True" % (desc, obs["status"])))
+        if wrote:
+            out.append(("C08:dmap:credentials-written-on-failure", "%s: the request was not answered (status=%s) but finish() changed the credentials %s -> %s" % (desc, obs["status"], before, after)))
+        return out
     if spec.get("with_begin"):
         ab = obs.get("after_begin", before)
         if obs.get("begin") != "ok":
@@ -1216,7 +1278,7 @@ def judge_dmap(spec, obs):
     if not should_accept:
         if obs["status"] == 200 or after["has_paired"] or wrote:
             out.append(("C08:dmap:wrong-pin-accepted", "%s: status=%s has_paired=%s credentials %s -> %s" % (desc, obs["status"], after["has_paired"], before, after)))
-        if isinstance(obs["status"], str) and code != "missing":
+        if isinstance(obs["status"], str) and code != "missing" and spec.get("query") != "no-servicename":
             out.append(("C08:dmap:wrong-exception", "%s: handle_request %s" % (desc, obs["status"])))
     else:
         ok = (obs["status"] == 200 and after["has_paired"] and after["service"] == obs["expected_credentials"]
@@ -1225,7 +1287,7 @@ def judge_dmap(spec, obs):
             out.append(("C08:dmap:success-not-recorded", "%s: status=%s finish=%s after=%s (expected credentials %s)" % (desc, obs["status"], obs["finish"], after, obs["expected_credentials"])))
         elif after["service"] != after["settings"]:
             out.append(("C08:dmap:service-and-settings-disagree", "%s: %s" % (desc, after)))
-        if obs["status"] == 200 and obs.get("body_guid") != int(obs["expected_credentials"], 16):
+        if obs["status"] == 200 and guid_ok and obs.get("body_guid") != int(obs["expected_credentials"], 16):
             out.append(("C08:dmap:success-not-recorded", "%s: reply carries pairing guid %r, credentials are %s" % (desc, obs.get("body_guid"), obs["expected_credentials"])))
     return out
 
@@ -1243,6 +1305,15 @@ def dmap_specs(rng, thorough):
             if c.startswith("other:") and pin is not None and int(c[6:]) == pin:
                 continue
             specs.append({"handler": "dmap", "pin": pin, "code": c, "with_begin": c == "correct"})
+    # requests that pass the PIN check but lack / add query fields, and user-supplied pairing guids
+    # (top bit set, short, wider than the 64-bit cmpg field, not hex, empty), each followed by finish()
+    for pin in (0, 1234, None):
+        for q in ("no-servicename", "empty-servicename", "extra"):
+            specs.append({"handler": "dmap", "pin": pin, "code": "correct", "query": q})
+            specs.append({"handler": "dmap", "pin": pin, "code": "other:4321", "query": q})
+        for guid in ("0xFFFFFFFFFFFFFFFF", "0x8000000000000000", "0x12", "0x10000000000000000", "0x0123456789ABCDEF0123", "0xNOTHEXNOTHEXNOTH", "0x"):
+            specs.append({"handler": "dmap", "pin": pin, "code": "correct", "guid": guid})
+            specs.append({"handler": "dmap", "pin": pin, "code": "correct", "guid": guid, "query": "no-servicename"})
     # a guid from the generator
     specs.append({"handler": "dmap", "pin": 1234, "code": "correct", "guid": "0x" + "%016X" % rng.getrandbits(64)})
     specs.append({"handler": "dmap", "pin": 1234, "code": "other:4321", "guid": "0x" + "%016X" % rng.getrandbits(64)})
@@ -1759,6 +1830,8 @@ def model_correspondence(ctx, runs):
                 i, x = rej[0], "Bad"
             elif kind == "refused":
                 i, x = 0, "Bad"
+            elif kind == "malformed":
+                continue          # a malformed value may only be noticed at a later step (e.g. an empty Salt at M4)
             elif exchange_failed(spec, obs):
                 i, x = spec["index"], "Bad"
             else:
